@@ -334,7 +334,17 @@ func (st *State) applyContract(fr *Frame, in ssa.CallInstruction, ct *Contract, 
 		st.e.addObligation(st, u, "requires", fmt.Sprintf("%s.%s", ct.Func, label), site, g, mergeProps(props, u.c.Props), r.Src, false)
 		st.assume(g)
 	}
-	if ct.HasMods && len(ct.Modifies) > 0 {
+	if ct.HasMods && len(ct.Modifies) > 0 && ct.Options["unreachable"] == "locals" {
+		// an unknown function value: it cannot reach objects this unit allocated unless they are handed to it
+		var except []*Term
+		for _, a := range args {
+			if t, ok := a.(*Term); ok && t.Sort == SInt {
+				except = append(except, t)
+			}
+		}
+		st.e.note(u.name, "assumption", fmt.Sprintf("%s cannot reach objects allocated by %s other than its arguments (option unreachable locals)", ct.Func, u.name))
+		st.havocKeeping(ct.Modifies, Const("A0", SInt), except)
+	} else if ct.HasMods && len(ct.Modifies) > 0 {
 		st.havoc(ct.Modifies, nil)
 	} else if !ct.HasMods && !ct.Trusted {
 		// no frame given: nothing is modified is the default for pure helpers
@@ -449,6 +459,11 @@ func (st *State) builtin(fr *Frame, in ssa.CallInstruction, b *ssa.Builtin, c *s
 			st.heapSetInner(key, arr, dst.Base, inner)
 		}
 		delete(st.resultSlices, dst.Base.S)
+		if ls := st.e.leaves(dst.Elem); len(ls) == 1 {
+			// a full copy has the same set of elements as its source
+			post := st.memberArr(st.heap, dst)
+			st.assume(Implies(Eq(dst.Len, src.Len), Eq(post, st.memberArr(st.heap, src))))
+		}
 		return n
 	case "min", "max":
 		x, y := st.scalar(args[0]), st.scalar(args[1])
